@@ -45,6 +45,7 @@ class Summary:
     def __init__(self, func):
         self.func = func
         self.returns = []      # (guard tuple, term, node)
+        self.loop_init = {}    # (name, loop id) -> value at loop entry
         self.events = []
         self.env = {}
         self.heap = {}
@@ -117,11 +118,17 @@ class Eval:
 
     # ------------------------------------------------------------------ statements
     def block(self, stmts):
-        """returns None when control may fall through, else the terminator kind"""
+        """returns None when control may fall through, else the terminator kind
+        ('return' / 'raise' leave the function, 'break' / 'continue' flow to the loop end)"""
         g0 = len(self.guard)
         status = None
-        for st in stmts:
-            status = self.stmt(st)
+        for i, st in enumerate(stmts):
+            if isinstance(st, ast.If):
+                status, absorbed = self.s_If(st, stmts[i + 1:])
+                if absorbed:
+                    break
+            else:
+                status = self.stmt(st)
             if status:
                 break
         del self.guard[g0:]
@@ -136,6 +143,8 @@ class Eval:
             self.guard.pop()
 
     def stmt(self, st):
+        if isinstance(st, ast.If):
+            return self.s_If(st)[0]
         m = getattr(self, "s_" + type(st).__name__, None)
         if m is None:
             raise AnalysisError(f"unsupported statement {type(st).__name__} at {self.func.where(st)}")
@@ -222,6 +231,7 @@ class Eval:
 
     def assign(self, target, v, st, aug=False):
         if isinstance(target, ast.Name):
+            self.emit("assign", st, name=target.id, value=v, old=self.env.get(target.id), aug=aug)
             self.env[target.id] = v
         elif isinstance(target, (ast.Tuple, ast.List)):
             n = len(target.elts)
@@ -250,12 +260,14 @@ class Eval:
         else:
             raise AnalysisError(f"unsupported assignment target at {self.func.where(st)}")
 
-    def s_If(self, st):
+    def s_If(self, st, rest=()):
+        """-> (status, absorbed).  When exactly one branch terminates, the other one absorbs the rest of
+        the enclosing block (so `if c: ...; continue` + rest  ==  `if c: ... else: rest`)."""
         c = self.truth(self.ev(st.test))
         if c == T.TRUE:
-            return self.block(st.body)
+            return self.block(st.body), False
         if c == T.FALSE:
-            return self.block(st.orelse)
+            return self.block(st.orelse), False
         env0, heap0 = dict(self.env), dict(self.heap)
         s1 = self.gblock(c, st.body)
         env1, heap1 = self.env, self.heap
@@ -263,20 +275,38 @@ class Eval:
         nc = T.b_not(c)
         s2 = self.gblock(nc, st.orelse)
         env2, heap2 = self.env, self.heap
-        if s1 and s2:
-            self.env, self.heap = env2, heap2
-            return s1 if s1 == s2 else "return"
-        if s1 and not s2:
-            self.env, self.heap = env2, heap2
-            self.guard.append(nc)      # early exit: the rest of the enclosing block runs under not c
-            return None
-        if s2 and not s1:
+        absorbed = False
+        if s1 and not s2 and rest:
+            s2 = self.gblock(nc, list(rest))
+            env2, heap2 = self.env, self.heap
+            absorbed = True
+        elif s2 and not s1 and rest:
             self.env, self.heap = env1, heap1
-            self.guard.append(c)
-            return None
-        self.env = self.merge(c, env1, env2)
-        self.heap = self.merge(c, heap1, heap2)
-        return None
+            s1 = self.gblock(c, list(rest))
+            env1, heap1 = self.env, self.heap
+            absorbed = True
+        exits = ("return", "raise")
+        f1, f2 = s1 not in exits, s2 not in exits       # does the environment flow on?
+        if f1 and f2:
+            self.env = self.merge(c, env1, env2)
+            self.heap = self.merge(c, heap1, heap2)
+        elif f1:
+            self.env, self.heap = env1, heap1
+        else:
+            self.env, self.heap = env2, heap2
+        if s1 and s2:
+            status = s1 if (s1 in exits and s2 in exits) or s1 == s2 else ("break" if not (s1 in exits and s2 in exits) else "return")
+            if s1 in exits and s2 not in exits:
+                status = s2
+            elif s2 in exits and s1 not in exits:
+                status = s1
+            return status, absorbed
+        if not s1 and not s2:
+            return None, absorbed
+        # one branch terminated and there was nothing left to absorb: the block may complete normally
+        if (s1 in exits and not s2) or (s2 in exits and not s1):
+            self.guard.append(nc if s1 else c)      # rest of the enclosing block (none here) runs under the other branch
+        return None, absorbed
 
     @staticmethod
     def merge(c, a, b):
@@ -316,6 +346,9 @@ class Eval:
         else:
             raise AnalysisError(f"unsupported loop target at {self.func.where(target)}")
 
+    def s_If_stmt(self, st):
+        return self.s_If(st)[0]
+
     def s_For(self, st):
         it = self.ev(st.iter)
         L = self.fresh()
@@ -325,6 +358,7 @@ class Eval:
         heap0 = dict(self.heap)
         for n in carried:
             self.env[n] = ("lc", n, L)
+            self.summary.loop_init[(n, L)] = init[n]
         self.bind_target(st.target, bv)
         self.gblock(("loop", L, it), st.body)
         # summarise loop-carried values
@@ -388,6 +422,7 @@ class Eval:
         init = {n: self.env[n] for n in carried}
         for n in carried:
             self.env[n] = ("lc", n, L)
+            self.summary.loop_init[(n, L)] = init[n]
         c = self.truth(self.ev(st.test))
         self.gblock(("while", L, c), st.body)
         for n in carried:
@@ -875,6 +910,7 @@ class Eval:
         sub.try_stack = list(self.try_stack)
         sub.heap = {}
         s = sub.run()
+        self.summary.loop_init.update(s.loop_init)
         # events of the callee become visible in the caller (they carry the caller's guard prefix)
         for e in s.events:
             if e.kind != "return":
@@ -933,6 +969,8 @@ def simplify_call(fname, recv, args, kw):
         return ("call", fname, args, kw)
     if fname in ROUND_NAMES:
         return ("call", "round", args, kw)
+    if fname == "bool" and len(args) == 1 and args[0][0] in ("and", "or", "not", "exists", "forall", "ige", "cmp", "in", "bool"):
+        return args[0]
     if fname in ("list", "tuple") and len(args) == 1:
         a = args[0]
         if a[0] in ("seq", "map", "concat", "flatmap"):
